@@ -24,6 +24,21 @@ CHECKS = {
             "WellFormed evaluated by TLC on every state of recorded catalogue histories (failed calls, undo, redo, replica, reload included).", "Projection reads the public workbook value; spill conditions after evaluation.", "4 C27"),
     "C28": ("selection", "model_checking", "TLA+ Selection.tla (SelOK) model-checked with TLC; S->I replay of every behaviour; I->S SelOK on every logged selection state (TraceSelection.tla)",
             "Reference selection machine proved to keep SelOK within bounds; every behaviour replayed with the selection compared after each step; SelOK evaluated by TLC on recorded histories.", "Choice of the newly selected sheet left open as the property leaves it.", "4 C28"),
+    "C12": ("structural", "model_checking", "TLA+ Structural.tla (one position map sigma per structural edit on an abstract two-sheet workbook; InsertLosesNothing as action property) with TLC; every behaviour replayed on UserModel::insert_rows / insert_columns with the whole observable state compared",
+            "Every insertion position x count within bounds, alone and after every other action; cells (12 re-entry-sensitive literals), styles, all reference kinds incl. whole columns / rows and a defined name, preserved formula values, sizes, links.",
+            "Far from the grid edge (off-grid #REF! not covered); no arrays / spills in the workbook.", "4 C12"),
+    "C13": ("structural", "model_checking", "TLA+ Structural.tla (SigDel; a deleted target is #REF!, partly deleted ranges left open) with TLC; every behaviour replayed on UserModel::delete_rows / delete_columns",
+            "Every deletion position x count within bounds, alone and after / before every other action; surviving cells shifted, references to deleted cells #REF!, formulas that read no deleted cell keep their values.",
+            "A range that loses one end may shrink or become #REF! (left open by the statement).", "4 C13"),
+    "C14": ("structural", "model_checking", "TLA+ Structural.tla invariant InsertDeleteIdentity checked by TLC on the design; every insert;delete pair of the same band replayed and compared with the initial state",
+            "All positions x counts x rows / columns; the state after the pair must equal the initial state in every observed component, values included.",
+            "Same workbook as C12.", "4 C14"),
+    "C15": ("structural", "model_checking", "TLA+ Structural.tla (SigMove, MoveClassOK side condition; MovePermutes as action property) with TLC; every behaviour replayed on UserModel::move_rows_action / move_columns_action",
+            "Every block position x size x offset (both signs) within bounds, alone and combined with every other action.",
+            "Ranges straddling the moved block are left open as the statement does; no hidden rows in the landing zone.", "4 C15"),
+    "C33": ("structural", "model_checking", "TLA+ Structural.tla: links and the conditional-format area and rule reference are displaced by the same sigma as formulas; Clear / Undo / CutPaste actions; ClearUndoIdentity invariant; every behaviour replayed and get_links_list / get_conditional_formatting_list compared",
+            "Link positions, CF area and CF rule formula after every step of every behaviour (all structural edits, clear, undo of clear, cut and paste of a linked cell).",
+            "One rule, one area; copy (not cut) and paste over occupied cells are not modelled here.", "4 C33"),
     "C21": ("calendar", "model_checking", "TLA+ Calendar.tla: the day-by-day Gregorian chain with a closed form as invariant, every state (serial) printed by TLC and replayed on the date codecs, formats and functions",
             "All 2 958 465 serials are states of the spec; each is compared with from_excel_date / date_to_serial_number (all), and with yyyy-mm-dd formatting, typed ISO dates and DATE/YEAR/MONTH/DAY/WEEKDAY (windows in quick, all in thorough).",
             "Gregorian rules as written in Calendar.tla, certified against an independent closed form by TLC on every day.", "4 C21"),
@@ -97,6 +112,7 @@ def main():
             {"name": "history", "path": "spec/History.tla, spec/MC_History.tla, spec/TraceHistory.tla, bin/fam_history.py, harness/src/{world,histrec,ops,gen,project}.rs", "serves_properties": ["C01", "C02", "C03", "C04", "C26"], "kind_free_text": "TLC model checking + bidirectional conformance"},
             {"name": "selection", "path": "spec/Selection.tla, spec/MC_Selection.tla, spec/TraceSelection.tla, harness/src/behreplay.rs", "serves_properties": ["C28"], "kind_free_text": "TLC model checking + bidirectional conformance"},
             {"name": "cases", "path": "spec/{Calendar,Grid,Lang,F4,NumberInput,NumberFormat}.tla, bin/fam_cases.py, harness/src/cases.rs", "serves_properties": ["C08", "C09", "C11", "C25", "C29", "C30", "C19", "C20", "C21", "C22", "C23", "C34"], "kind_free_text": "TLC case enumeration with expected results, replayed on the implementation"},
+            {"name": "structural", "path": "spec/Structural.tla, bin/fam_cases.py (StructuralFam), harness/src/structural.rs", "serves_properties": ["C12", "C13", "C14", "C15", "C33"], "kind_free_text": "TLC behaviour enumeration with expected abstract state, replayed on the implementation"},
             {"name": "structure", "path": "spec/TraceWellFormed.tla", "serves_properties": ["C27"], "kind_free_text": "TLC trace validation of a state predicate"},
         ],
         "checks": checks,
